@@ -103,6 +103,12 @@ Check (C01_tls_critical_or_duplicate_refused :
     (forall l, In (XOther true) l -> tls_accept on_curve verify l spki expected <> Accept p) /\
     (forall la c1 lb c2 lc,
        tls_accept on_curve verify (la ++ XP2p c1 :: lb ++ XP2p c2 :: lc) spki expected <> Accept p)).
+Check (C01_non_ed25519_never_accepted :
+  forall on_curve verify kb m,
+    decode_keymsg kb = Some m -> k_type m <> 1 ->
+    (forall pb pl rs d p, decode_payload pb = Some pl -> p_key pl = Some kb ->
+       accept on_curve verify pb rs d <> Accept p) /\
+    (forall l sg spki e p, In (XP2p (Some (kb, sg))) l -> tls_accept on_curve verify l spki e <> Accept p)).
 Check (C01_tls_binding :
   forall (on_curve : bytes -> bool) (verify : bytes -> bytes -> bytes -> bool),
     (forall pk m m' sg, verify pk m sg = true -> verify pk m' sg = true -> m = m') ->
@@ -283,41 +289,53 @@ Check (C01_early_data :
      listener_app_bytes on_curve verify H KDF pubk dh L a e bufs sc
        <= V.C02.Model.pstart (V.C02.Model.e_plains e) j)).
 Check (C01_dy_attacker_knows_only_public :
-  forall (asec bad : N -> Prop) tr t, DY.valid asec bad tr -> DY.knows asec bad tr t -> DY.pub asec bad t).
+  forall (pro : N -> list N) (asec bad : N -> Prop) tr t,
+    DY.valid pro asec bad tr -> DY.knows asec bad tr t -> DY.pub asec bad t).
 Check (C01_dy_knowledge_monotone :
   forall (asec bad : N -> Prop) tr tr' t,
     incl tr tr' -> DY.knows asec bad tr t -> DY.knows asec bad tr' t).
 Check (C01_dy_secrets_never_leak :
-  forall (asec bad : N -> Prop) tr,
-    DY.valid asec bad tr ->
+  forall (pro : N -> list N) (asec bad : N -> Prop) tr,
+    DY.valid pro asec bad tr ->
     (forall a e s, In (DY.NewD a e s) tr \/ In (DY.NewL a e s) tr ->
        ~ DY.knows asec bad tr (DY.TSk e) /\ ~ DY.knows asec bad tr (DY.TSk s)) /\
     (forall a, ~ bad a -> ~ DY.knows asec bad tr (DY.TIdSk a))).
 Check (C01_dy_dialer_authenticates :
-  forall (asec bad : N -> Prop) tr a e s P rs K,
-    DY.valid asec bad tr -> In (DY.AcceptD a e s P rs K) tr -> ~ bad P ->
+  forall (pro : N -> list N) (asec bad : N -> Prop) tr a e s P rs K,
+    DY.valid pro asec bad tr -> In (DY.AcceptD a e s P rs K) tr -> ~ bad P ->
     In (DY.Signed P (DY.signed_part rs)) tr /\
     (exists e', In (DY.NewD P e' rs) tr \/ In (DY.NewL P e' rs) tr) /\
     ~ asec e /\ ~ asec rs /\
     (exists k y, K = DY.TMix (DY.TMix k (DY.dh e rs)) (DY.dh s y)) /\
     ~ DY.knows asec bad tr K).
 Check (C01_dy_listener_authenticates :
-  forall (asec bad : N -> Prop) tr a e s P rs K,
-    DY.valid asec bad tr -> In (DY.AcceptL a e s P rs K) tr -> ~ bad P ->
+  forall (pro : N -> list N) (asec bad : N -> Prop) tr a e s P rs K,
+    DY.valid pro asec bad tr -> In (DY.AcceptL a e s P rs K) tr -> ~ bad P ->
     In (DY.Signed P (DY.signed_part rs)) tr /\
     (exists e', In (DY.NewD P e' rs) tr \/ In (DY.NewL P e' rs) tr) /\
     ~ asec e /\ ~ asec rs /\
     (exists k, K = DY.TMix k (DY.dh e rs)) /\
     ~ DY.knows asec bad tr K).
+Check (C01_dy_dialer_agreement :
+  forall (pro : N -> list N) (asec bad : N -> Prop) tr a e s P rs K,
+    DY.valid pro asec bad tr -> In (DY.AcceptD a e s P rs K) tr -> ~ bad P ->
+    exists y, K = DY.d_key e s y rs /\ In (DY.NewL P y rs) tr /\ pro e = pro y /\
+              DY.msg2_expected pro e y rs P = DY.msg2 pro P y rs e).
+Check (C01_dy_listener_agreement :
+  forall (pro : N -> list N) (asec bad : N -> Prop) tr a e s P rs K,
+    DY.valid pro asec bad tr -> In (DY.AcceptL a e s P rs K) tr -> ~ bad P ->
+    exists y, K = DY.l_key e s y rs /\ In (DY.NewD P y rs) tr /\ In (DY.AcceptD P y rs a s K) tr /\
+              pro e = pro y).
 Check (C01_dy_matching_sessions :
-  forall (asec bad : N -> Prop) tr a e s P rs a' e' s' P' rs' K,
-    DY.valid asec bad tr -> In (DY.AcceptD a e s P rs K) tr -> In (DY.AcceptL a' e' s' P' rs' K) tr ->
+  forall (pro : N -> list N) (asec bad : N -> Prop) tr a e s P rs a' e' s' P' rs' K,
+    DY.valid pro asec bad tr -> In (DY.AcceptD a e s P rs K) tr -> In (DY.AcceptL a' e' s' P' rs' K) tr ->
     rs = s' /\ rs' = s /\ (~ bad P -> a' = P) /\ (~ bad P' -> a = P')).
 Check (C01_dy_secret_owner_unique :
-  forall (asec bad : N -> Prop) tr ev1 ev2 x,
-    DY.valid asec bad tr -> In ev1 tr -> In ev2 tr -> In x (DY.names ev1) -> In x (DY.names ev2) -> ev1 = ev2).
+  forall (pro : N -> list N) (asec bad : N -> Prop) tr ev1 ev2 x,
+    DY.valid pro asec bad tr -> In ev1 tr -> In ev2 tr -> In x (DY.names ev1) -> In x (DY.names ev2) -> ev1 = ev2).
 Check (C01_dy_honest_run :
-  DY.valid DY.nobody DY.nobody DY.honest_trace /\
-  In (DY.AcceptD 10 1 2 20 4 (DY.d_key 1 2 3 4)) DY.honest_trace /\
-  In (DY.AcceptL 20 3 4 10 2 (DY.l_key 3 4 1 2)) DY.honest_trace /\
+  forall pro : N -> list N, pro 1 = pro 3 ->
+  DY.valid pro DY.nobody DY.nobody (DY.honest_trace pro) /\
+  In (DY.AcceptD 10 1 2 20 4 (DY.d_key 1 2 3 4)) (DY.honest_trace pro) /\
+  In (DY.AcceptL 20 3 4 10 2 (DY.l_key 3 4 1 2)) (DY.honest_trace pro) /\
   DY.d_key 1 2 3 4 = DY.l_key 3 4 1 2).
